@@ -387,7 +387,9 @@ func c06TTLSpace(c *fw.Ctx) {
 	spell = append(spell, "1H30m", "1w2d3h4m5s", "1W2D3H4M5S", "5s4m3h2d1w", "7101w", "7102w", "49710d", "49711d", "1h1h1h", "1w1d1h1m1s1w",
 		// long tokens: legal ones (leading zeros, many terms) and numbers that wrap a 64-bit accumulator back into range
 		"10w2d3h4m5s", "00000003600", "00000000000000000000003600", "0w0d0h0m0s0w0d0h0m3600s",
-		"18446744073709551616", "18446744073709551617", "18446744073709555216", "36893488147419103232", "99999999999999999999", "18446744073709551617s", "1s18446744073709551616")
+		"18446744073709551616", "18446744073709551617", "18446744073709555216", "36893488147419103232", "99999999999999999999", "18446744073709551617s", "1s18446744073709551616",
+		// 7102 terms (78 KB) whose sum is 2^64 + 300: a 64-bit sum of the terms wraps back to 300
+		strings.Repeat("4294967295w", 7101)+"2006143148w7h5m16s")
 	c.Space("ttl", fmt.Sprintf("%d TTL spellings (plain numbers incl. 2^32-1 and 2^32; every <number><unit> with number ∈ %v and unit ∈ %v; every concatenation of two such terms; longer sums; values around 2^32; tokens of 11..26 characters, numbers of 2^64 and beyond) × 8 placements (explicit in each of the 5 header shapes that carry a TTL, $TTL then omitted, explicit then omitted on the next line, in $GENERATE) × default TTL {unset,77}; non-trivial: the spelling uses a unit", len(spell), nums, units), true,
 		func(emit func(func(*fw.R))) {
 			for _, s := range spell {
